@@ -187,6 +187,9 @@ func runCase(c Case) *ev.Failure {
 			}
 		}
 		exph.ReleaseAdopted() // SendSet has returned: the application reuses the slices it handed over
+		if !exph.PlaceholdersIntact() {
+			return ev.Failf("step %d: setting an address element's value wrote into the all-zero placeholder the element had been created with (memory shared with other elements, not owned by this one)", i)
+		}
 		sent++
 		total += len(want)
 		if n != len(want) {
